@@ -236,3 +236,79 @@ def build(ctx):
             ctx.prove(f"space_group.SpaceGroup.from_symmetry_operations/ensures/expand_latt_range/path{k}", r.pc,
                       z3.BoolVal(r.kind == "raise" and r.value.exc_type == "ValueError"), clause="expand_latt outside [-7,7] raises ValueError", fn=f_from)
     ctx.attempt("space_group.SpaceGroup.from_symmetry_operations/ensures/expand_latt_range", ob_expand_range)
+    expand_obligations(ctx)
+
+
+def expand_obligations(ctx):
+    """P: expanded_symmetry_list on two symbolic operations, for every lattice type -7..7 (0 excluded): the result is, in order,
+    each input operation followed by its centring translates (identity appended first if absent), then — for a positive
+    lattice type — the inverses of all of those; nothing else."""
+    from pyvc.api import Obj, farr, int_matrix, reals, source as _src
+    from fractions import Fraction
+    I = ctx.interp()
+    somod = _src.load_module(SO)
+    SOcls = I.class_of(somod, "SymmetryOperation")
+    f_exp = ctx.fn(SO, "expanded_symmetry_list")
+    LTT = {1: (), 2: ((Fraction(1, 2),) * 3,), 3: ((Fraction(2, 3), Fraction(1, 3), Fraction(1, 3)), (Fraction(1, 3), Fraction(2, 3), Fraction(2, 3))),
+           4: ((0, Fraction(1, 2), Fraction(1, 2)), (Fraction(1, 2), 0, Fraction(1, 2)), (Fraction(1, 2), Fraction(1, 2), 0)),
+           5: ((0, Fraction(1, 2), Fraction(1, 2)),), 6: ((Fraction(1, 2), 0, Fraction(1, 2)),), 7: ((Fraction(1, 2), Fraction(1, 2), 0),)}
+    R = [int_matrix(f"a{k}_", 3, 3) for k in range(2)]
+    T = [reals(f"b{k}_", 3) for k in range(2)]
+    pre = [z3.And(R[k][i][j] >= -1, R[k][i][j] <= 1) for k in range(2) for i in range(3) for j in range(3)] + \
+          [z3.And(T[k][i] >= 0, T[k][i] < 1) for k in range(2) for i in range(3)]
+    frac = lambda x: x - z3.ToReal(z3.ToInt(x))
+
+    def replay(m):
+        from chmpy.crystal.symmetry_operation import SymmetryOperation, expanded_symmetry_list
+        ops = [SymmetryOperation.from_string_code("-x,y,-z"), SymmetryOperation.from_string_code("x,y,z")]
+        out = {}
+        bad = False
+        for lt in (1, 2, 3, 4, 5, 6, 7, -1, -2, -3, -4, -5, -6, -7):
+            full = expanded_symmetry_list(list(ops), lt)
+            want = len(ops) * (1 + len(LTT[abs(lt)])) * (2 if lt > 0 else 1)
+            out[lt] = len(full)
+            bad |= len(full) != want
+        return {"native_inputs": "ops (-x,y,-z), (x,y,z); all lattice types", "reproduced": bad, "observed": out}
+    for lt in (1, 2, 3, 4, 5, 6, 7, -1, -2, -3, -4, -5, -6, -7):
+        def ob(lt=lt):
+            def thunk(I2, a, kw):
+                ops = [Obj(SOcls, {"rotation": farr(R[k]), "translation": farr(T[k])}) for k in range(2)]
+                return I2.call(I2.lookup_global(somod, "expanded_symmetry_list"), [ops, lt])
+            res = I.explore(thunk, pre=pre)
+            for pk, r in enumerate(res):
+                sfx = f"/path{pk}"
+                ident = f"symmetry_operation.expanded_symmetry_list/ensures/contents/latt{lt}{sfx}"
+                if r.kind != "return":
+                    ctx.prove(ident, r.pc, z3.BoolVal(False), clause="returns normally", replay=replay, fn=f_exp)
+                    continue
+                full = r.value
+                tr = LTT[abs(lt)]
+                nin = (len(full) // (2 if lt > 0 else 1)) // (1 + len(tr))          # 2 inputs, or 3 when the identity was appended
+                goals = [z3.BoolVal(nin in (2, 3) and len(full) == nin * (1 + len(tr)) * (2 if lt > 0 else 1))]
+                if nin in (2, 3):
+                    base = []
+                    for k in range(nin):
+                        if k < 2:
+                            Rk, Tk = [[z3.ToReal(R[k][i][j]) for j in range(3)] for i in range(3)], T[k]
+                        else:
+                            Rk, Tk = [[z3.RealVal(1 if i == j else 0) for j in range(3)] for i in range(3)], [z3.RealVal(0)] * 3
+                        base.append((Rk, [frac(Tk[i]) for i in range(3)]))
+                        for t in tr:
+                            base.append((Rk, [frac(frac(Tk[i]) + z(t[i]) if not isinstance(t[i], int) else frac(Tk[i]) + t[i]) for i in range(3)]))
+                    want = list(base)
+                    if lt > 0:
+                        want += [([[-Rk[i][j] for j in range(3)] for i in range(3)], [frac(-tk[i]) for i in range(3)]) for Rk, tk in base]
+                    # the property speaks about operation SETS: within the block of one input operation the order of its centring
+                    # translates is immaterial, so the block is compared as a set
+                    bs = 1 + len(tr)
+
+                    def same(got, w):
+                        rot, tra = got.fields["rotation"].data, got.fields["translation"].data
+                        return z3.And(*([z(rot[i, j]) == w[0][i][j] for i in range(3) for j in range(3)] + [z(tra[i]) == w[1][i] for i in range(3)]))
+                    for b0 in range(0, len(want), bs):
+                        gb, wb = full[b0:b0 + bs], want[b0:b0 + bs]
+                        goals += [z3.Or(*[same(g_, w_) for g_ in gb]) for w_ in wb]
+                        goals += [z3.Or(*[same(g_, w_) for w_ in wb]) for g_ in gb]
+                ctx.prove(ident, r.pc, conj(goals), clause=f"lattice type {lt}: each input operation (identity appended if absent) followed by its centring translates"
+                          + (", then the inverse of each of those" if lt > 0 else "") + "; rotations unchanged / negated, translations modulo 1", replay=replay, fn=f_exp)
+        ctx.attempt(f"symmetry_operation.expanded_symmetry_list/ensures/contents/latt{lt}", ob, replay=replay, fn=f_exp)
